@@ -6,6 +6,7 @@ use std::panic::catch_unwind;
 
 mod statuslist;
 mod jws;
+mod storage;
 mod coll;
 mod jwk;
 mod revocation;
@@ -94,6 +95,7 @@ fn main() {
     "revocation" => revocation::bitmap(&cex),
     "jwk" => jwk::jwk(&cex),
     "collections" => coll::collections(&cex),
+    "storage_faults" => storage::faults(&cex),
     "kani" => kani_replay(&cex),
     "selftest" => selftest(),
     _ => Err(format!("unknown scenario {scenario}")),
